@@ -297,6 +297,13 @@ func c08B3x(l *core.Ledger, r *rt, withCtxTest bool) {
 		}
 	})
 	if !okTest {
+		// the same test written as a non-blocking select on the request's ctx.Done()
+		_, alive := ctxPollEdges(fn, func(v ssa.Value) bool { return sx.All(sx.Origins(v), isReqCtx) })
+		if edgesDominate(fn, alive, sendNode) {
+			okTest = true
+		}
+	}
+	if !okTest {
 		// the test may sit in the callers instead: every call of sendMsg is
 		// dominated by the nil edge of ctx.Err() of the request it passes
 		ncall, nok := 0, 0
